@@ -77,13 +77,26 @@ NSX_CFG = {
         {"id": "id", "resource_type": "L4PortSetServiceEntry", "l4_protocol": "TCP",
          "destination_ports": ["80"], "source_ports": []}]}],
 }
+# objects on the manager whose ids lack the Netspoc prefix: outside Netspoc's scope (C07)
+NSX_FOREIGN = {
+    "groups": [{"id": "Custom-g", "expression": [{"id": "x1", "resource_type": "IPAddressExpression",
+                                                   "ip_addresses": ["10.7.7.7"]}]}],
+    "policies": [{"id": "Custom-v1", "resource_type": "GatewayPolicy", "rules": [
+        {"resource_type": "Rule", "id": "c1", "scope": ["/infra/tier-0s/v1"], "direction": "OUT",
+         "ip_protocol": "IPV4", "sequence_number": 10, "action": "ALLOW",
+         "source_groups": ["/infra/domains/default/groups/Custom-g"], "destination_groups": ["ANY"],
+         "services": ["/infra/services/Custom-s"]}]}],
+    "services": [{"id": "Custom-s", "service_entries": [
+        {"id": "id", "resource_type": "L4PortSetServiceEntry", "l4_protocol": "TCP",
+         "destination_ports": ["81"], "source_ports": []}]}],
+}
 API_KEY = "LUFRPT1kZq9/Xy7vTT=="         # `/` and `=` have URL-encoded forms (the tool inserts the key unescaped)
 HTTPS_TYPES = ("panos", "nsx")
 
 MODEL = {"asa": "ASA", "ios": "IOS", "linux": "Linux", "panos": "PAN-OS", "nsx": "NSX"}
 
 
-def device_and_target(typ, changes):
+def device_and_target(typ, changes, foreign=False):
     """(device config text(s) for the simulator, Netspoc code text)"""
     if typ == "asa":
         return {"config": asa.render(ASA_DEV, True)}, asa.render(ASA_TGT if changes else ASA_DEV, False)
@@ -94,6 +107,10 @@ def device_and_target(typ, changes):
     if typ == "panos":
         return {"config": "" if changes else PAN_INNER}, PAN_TGT
     if typ == "nsx":
+        if foreign:
+            base = {"groups": [], "policies": [], "services": []} if changes else NSX_CFG
+            dev = {k: base[k] + NSX_FOREIGN[k] for k in base}
+            return {"config": json.dumps(dev)}, json.dumps(NSX_CFG)
         return {"config": "" if changes else json.dumps(NSX_CFG)}, json.dumps(NSX_CFG)
     raise C.Broken("no scenario for " + typ)
 
